@@ -44,7 +44,7 @@ def _reorder_ids(ids):
 
 
 SORT_KEYS = ['id', 'name', ('name', 'id')]
-FILTERS = ['name_b', 'all']
+FILTERS = ['name_b', 'all', 'none']
 
 
 def alphabet(U):
@@ -193,7 +193,7 @@ def describe(op, U=None):
     if f == 'remove_all_id':
         return f'{c(op[1])}.remove_all(id={op[2]})'
     if f == 'remove_all_fn':
-        return f'{c(op[1])}.remove_all(<{op[2]}>)'
+        return f'{c(op[1])}.remove_all(<{op[2]}>)' if op[2] != 'none' else f'{c(op[1])}.remove_all()'
     if f == 'list<<':
         return f'{c(op[1])} << {t(op[2])}'
     if f == 'list>>':
@@ -207,7 +207,7 @@ def describe(op, U=None):
     if f == 'W.remove_all_id':
         return f'W{op[1]}.remove_all(id={op[2]})'
     if f == 'W.remove_all_fn':
-        return f'W{op[1]}.remove_all(<{op[2]}>)'
+        return f'W{op[1]}.remove_all(<{op[2]}>)' if op[2] != 'none' else f'W{op[1]}.remove_all()'
     if f == 'W.tasks.parent=':
         return f'W{op[1]}.tasks(id_in_={list(op[2])}).parent = {t(op[3])}'
     if f == 'Task()':
@@ -232,6 +232,8 @@ def describe(op, U=None):
 # execution on the real objects
 
 def _filter_fn(name):
+    if name == 'none':
+        return None
     if name == 'name_b':
         return lambda t: t.name == 'b'
     return lambda t: True
@@ -315,7 +317,8 @@ def apply(U, op, facade=None):
         if f == 'remove_all_id':
             return ('ret', tuple(r(x) for x in fac.remove_all(id=op[2])))
         if f == 'remove_all_fn':
-            return ('ret', tuple(r(x) for x in fac.remove_all(_filter_fn(op[2]))))
+            fn = _filter_fn(op[2])
+            return ('ret', tuple(r(x) for x in (fac.remove_all(fn) if fn is not None else fac.remove_all())))
         if f == 'list<<':
             fac << T[op[2]]
             return None
@@ -332,7 +335,8 @@ def apply(U, op, facade=None):
     if f == 'W.remove_all_id':
         return ('ret', tuple(r(x) for x in U.wbs[op[1]].remove_all(id=op[2])))
     if f == 'W.remove_all_fn':
-        return ('ret', tuple(r(x) for x in U.wbs[op[1]].remove_all(_filter_fn(op[2]))))
+        fn = _filter_fn(op[2])
+        return ('ret', tuple(r(x) for x in (U.wbs[op[1]].remove_all(fn) if fn is not None else U.wbs[op[1]].remove_all())))
     if f == 'W.tasks.parent=':
         U.wbs[op[1]].tasks(id_in_=list(op[2])).parent = None if op[3] is None else T[op[3]]
         return None
